@@ -67,76 +67,33 @@ Lemma sum_len_skipn_le l k : sum_len (skipn k l) <= sum_len l.
 Proof. rewrite <- (firstn_skipn k l) at 2. rewrite sum_len_app. lia. Qed.
 
 (* a stateless (offset-addressed) read leaves the topic state as it is *)
+Lemma br_from_stateless c m s t maxb ck ts chain idx0 off0 tb tof trim0 hint0 :
+  exists os, br_from c m s t maxb ck ts (None, chain, idx0, off0, tb, tof, trim0, hint0, true) =
+             (set_ts s (t_id t) ts, REntries os).
+Proof.
+  unfold br_from. cbn zeta.
+  destruct (plan_sealed _ _ _ _ _ _ _ _ _) as [[[racc planned] idx_after] truncated].
+  match goal with |- context [let '(_, _) := ?X in _] => destruct X as [racc2 trim1] end.
+  destruct racc2; [eexists; reflexivity|].
+  cbn [negb]. rewrite !andb_false_r. eexists; reflexivity.
+Qed.
+
+Lemma br_position_stateless c ts st0 :
+  exists chain idx0 off0 tb tof trim0 hint0,
+    br_position c ts (Some st0) = (None, chain, idx0, off0, tb, tof, trim0, hint0, true).
+Proof.
+  unfold br_position.
+  destruct (off_locate _ 0 st0) as [[[i b]|] rem].
+  - destruct (off_scan c (b_ents b) 0 (b_used b) rem) as [[[[co hint] trim]|] fl]; [|destruct fl]; repeat eexists.
+  - repeat eexists.
+Qed.
+
 Lemma batch_read_stateless c m s t maxb ck st0 :
   exists os, batch_read c m s t maxb ck (Some st0) = (set_ts s (t_id t) (get_ts s (t_id t)), REntries os).
 Proof.
   unfold batch_read.
-  set (ts := get_ts s (t_id t)).
-  set (ch := match ts_reader ts with Some r => r_chain r | None => [] end).
-  assert (G : forall tup : option reader * list blk * nat * N * N * N * N * N * bool,
-            fst (fst (fst (fst (fst (fst (fst (fst tup))))))) = None -> snd tup = true ->
-            exists os, (let '(r1, chain, idx0, off0, tail_bid, tail_off, trim0, hint0, stateless) := tup in
-              let ts_h := match r1 with Some r => with_reader ts r | None => ts end in
-              let '(racc, planned, idx_after, truncated) := plan_sealed c maxb stateless (skipn idx0 chain) idx0 off0 hint0 0 [] in
-              let chain_len := length chain in
-              let '(racc2, trim1) :=
-                if negb truncated && (chain_len <=? idx_after)%nat then
-                  match (if ts_poisoned ts then None else ts_writer ts) with
-                  | Some w =>
-                    let '(tstart, trim) :=
-                      if stateless then
-                        match off_scan c (b_ents w) 0 (b_used w) tail_off with
-                        | (Some (co, _, tr), _) => (co, if co + c_hdr c <? tail_off then tr else trim0)
-                        | (None, _) => (0, trim0)
-                        end
-                      else ((if tail_bid =? b_id w then tail_off else 0), trim0) in
-                    if tstart <? b_used w
-                    then ({| pi_blk := w; pi_start := tstart; pi_end := b_used w; pi_tail := true; pi_idx := 0 |} :: racc, trim)
-                    else (racc, trim)
-                  | None => (racc, trim0)
-                  end
-                else (racc, trim0) in
-              match racc2 with
-              | [] => (set_ts s (t_id t) ts_h, REntries [])
-              | _ =>
-                let p0 := {| ps_outs := []; ps_n := 0; ps_total := 0; ps_parsed := 0; ps_trim := trim1;
-                             ps_fin_idx := 0; ps_fin_off := 0; ps_tail_id := 0; ps_tail_off := 0; ps_saw_tail := false; ps_stop := false |} in
-                let p := parse_plan c maxb (rev racc2) p0 in
-                let ts_c :=
-                  if (0 <? ps_parsed p) && ck && negb stateless then
-                    let r := reader_of ts_h in
-                    let '(r', persist_disk) :=
-                      match m with
-                      | Strict => (r, true)
-                      | ALO n => let every := N.max n 1 in
-                                 let total := N.min u32_max (r_since r + ps_parsed p) in
-                                 (set_since r (if every <=? total then 0 else total), false)
-                      end in
-                    if ps_saw_tail p then
-                      let r'' := set_tail (set_cur r' chain_len 0) (ps_tail_id p) (ps_tail_off p) in
-                      let ts1 := with_reader ts_h r'' in
-                      if persist_disk then persist ts1 true (ps_tail_id p) (ps_tail_off p) else ts1
-                    else
-                      let r'' := set_cur r' (ps_fin_idx p) (ps_fin_off p) in
-                      let ts1 := with_reader ts_h r'' in
-                      if persist_disk then persist ts1 false (N.of_nat (ps_fin_idx p)) (ps_fin_off p) else ts1
-                  else ts_h in
-                let ts_d := if ck && negb stateless then count_sub ts_c (ps_parsed p) else ts_c in
-                (set_ts s (t_id t) ts_d, REntries (rev (ps_outs p)))
-              end) = (set_ts s (t_id t) ts, REntries os)).
-  { intros [[[[[[[[r1 chain] idx0] off0] tail_bid] tail_off] trim0] hint0] stateless] Hr Hs. cbn in Hr, Hs. subst r1 stateless.
-    cbn zeta. destruct (plan_sealed _ _ _ _ _ _ _ _ _) as [[[racc planned] idx_after] truncated].
-    match goal with |- context [let '(_, _) := ?X in _] => destruct X as [racc2 trim1] end.
-    destruct racc2; [eexists; reflexivity|].
-    cbn [negb]. rewrite !andb_false_r. eexists; reflexivity. }
-  fold ts. fold ch.
-  destruct (off_locate ch 0 st0) as [[[i b]|] rem].
-  - destruct (off_scan c (b_ents b) 0 (b_used b) rem) as [[[[co hint] trim]|] fl].
-    + apply (G (None, ch, i, co, 0, rem, trim, hint, true)); reflexivity.
-    + destruct fl.
-      * apply (G (None, ch, i, b_used b, 0, rem, 0, 0, true)); reflexivity.
-      * apply (G (None, ch, i, 0, 0, rem, 0, 0, true)); reflexivity.
-  - apply (G (None, ch, length ch, 0, 0, rem, 0, 0, true)); reflexivity.
+  destruct (br_position_stateless c (get_ts s (t_id t)) st0) as (chain & idx0 & off0 & tb & tof & trim0 & hint0 & E).
+  rewrite E. apply br_from_stateless.
 Qed.
 
 (* ------------------------------------------------------------------ one step *)
